@@ -6,8 +6,10 @@ import (
 	"math/rand"
 	"os"
 	"path/filepath"
+	"runtime/debug"
 	"sort"
 	"sync"
+	"sync/atomic"
 
 	"github.com/lindb/lindb/kv"
 	"github.com/lindb/lindb/pkg/timeutil"
@@ -26,13 +28,27 @@ var regMergerOnce sync.Once
 type unionMergerImpl struct{ flusher kv.Flusher }
 
 func (m *unionMergerImpl) Init(map[string]interface{}) {}
-func (m *unionMergerImpl) Merge(key uint32, values [][]byte) error {
+func (m *unionMergerImpl) Merge(key uint32, values [][]byte) (err error) {
+	// the values are slices of memory-mapped tables: a fault while they are read (the table's file was truncated or
+	// unmapped under the compaction: what reusing the number of a live table does) makes the merge fail -- the job
+	// reports the error and the history records it -- instead of killing the process inside the merger
+	old := debug.SetPanicOnFault(true)
+	defer func() {
+		debug.SetPanicOnFault(old)
+		if p := recover(); p != nil {
+			err = fmt.Errorf("fault while reading the values of key %d: %v", key, p)
+			unionMergerFaults.Add(1)
+		}
+	}()
 	var atoms []uint32
 	for _, v := range values {
 		atoms = append(atoms, kvwrap.DecodeAtoms(v)...)
 	}
 	return m.flusher.Add(key, kvwrap.EncodeAtoms(atoms))
 }
+
+// unionMergerFaults counts the merges that faulted (drivers turn a non-zero count into an Error event)
+var unionMergerFaults atomic.Int64
 
 func registerUnionMerger() {
 	regMergerOnce.Do(func() {
@@ -100,15 +116,26 @@ func kvProj(store kv.Store, w *kvwrap.World) trace.F {
 		loadErr := ""
 		for k := uint32(0); k < kvKeyUniverse; k++ {
 			seen := map[uint32]bool{}
-			err := snap.Load(k, func(val []byte) error {
-				for _, a := range kvwrap.DecodeAtoms(val) {
-					if !seen[a] {
-						seen[a] = true
-						content = append(content, []int64{int64(k), int64(a)})
+			err := func() (err error) {
+				// a memory fault while a table is read (its file truncated or unmapped under the reader: what reusing the
+				// number of a live table does) is an observation about the code under test, not a failure of the harness
+				old := debug.SetPanicOnFault(true)
+				defer func() {
+					debug.SetPanicOnFault(old)
+					if p := recover(); p != nil {
+						err = fmt.Errorf("fault while reading key %d: %v", k, p)
 					}
-				}
-				return nil
-			})
+				}()
+				return snap.Load(k, func(val []byte) error {
+					for _, a := range kvwrap.DecodeAtoms(val) {
+						if !seen[a] {
+							seen[a] = true
+							content = append(content, []int64{int64(k), int64(a)})
+						}
+					}
+					return nil
+				})
+			}()
 			if err != nil {
 				loadErr = err.Error()
 			}
@@ -195,6 +222,9 @@ func (r *kvRun) compact(name string) {
 	nums := r.w.TakeAllocs("")
 	for _, g := range fams {
 		r.rec.Emit("WriterDone", trace.F{"fam": int(g.ID()), "nums": nums})
+	}
+	if n := unionMergerFaults.Swap(0); n > 0 {
+		r.rec.Emit("Error", trace.F{"op": "Compact", "err": fmt.Sprintf("%d merge(s) faulted while reading their input tables (a table file truncated or unmapped under the compaction)", n)})
 	}
 	r.rec.Emit("Proj", trace.F{"proj": kvProj(r.store, r.w)})
 }
